@@ -203,7 +203,13 @@ fn run_case<B: Backend>(c: &Case, acc: &mut Acc) -> R {
             match ver {
                 Ver::V2 | Ver::V4 => {
                     let esk: [u8; 32] = c.nonce.bytes(32).try_into().unwrap();
-                    Some(model::pke_seal_25519(ver, &pk_raw, &esk, &pdk).map_err(|e| Fail::new("HARNESS/model-pke2", e))?)
+                    // every third case: the ephemeral key in its other X25519 encoding (bit 255 set)
+                    if c.salt_seed % 3 == 0 {
+                        acc.class("pke:model-blob-with-epk-bit-255-set");
+                        Some(model::pke_seal_25519_high_bit(ver, &pk_raw, &esk, &pdk).map_err(|e| Fail::new("HARNESS/model-pke2", e))?)
+                    } else {
+                        Some(model::pke_seal_25519(ver, &pk_raw, &esk, &pdk).map_err(|e| Fail::new("HARNESS/model-pke2", e))?)
+                    }
                 }
                 Ver::V3 => {
                     let mut esk = c.nonce.bytes(48);
